@@ -7,6 +7,24 @@ ids = [json.loads(l)["id"] for l in open(os.path.join(ROOT, "properties.jsonl"))
 
 TECH = "deterministic whole-program simulation (std-facade substitution under a seeded scheduler) with fault injection; "
 CLAIMED = {
+    "C08": dict(
+        level="exploration", ref="DESIGN.md 5/C08",
+        text="Non-interference by paired deterministic runs: each seeded case (a non-administrator session sending 1-6 commands from 30 templates x 10 secure/plain key arguments, interleaved with administrator writes and version conflicts on $$ keys) is simulated twice with the same seed and schedule, the two worlds differing only in the values stored under $$ keys; the low session's transcripts must be identical, no low command may change a $$ key and $$token must survive remove.",
+        note="no fault dimension; relies on the simulator's determinism; secret values have equal lengths in both worlds",
+        technique=TECH + "two-run non-interference oracle over seeded command sequences",
+    ),
+    "C09": dict(
+        level="exploration", ref="DESIGN.md 5/C09",
+        text="Seeded walk of the credential x command x permission-list x key matrix (35 commands = every parser command word, 7 login kinds, 9 permission lists, permission changes mid-session) against an access-control reference model on a node booted by start_db: a denied command must leave the full white-box state (databases, role, member table, snapshot queue, pending operations) unchanged and return no data line; an allowed one must not be refused for lack of credentials; a failed use-db must keep the previous selection.",
+        note="essentially model-based input generation hosted in the simulator (the cluster commands' side effects really start threads); disruptive cluster commands are tested for refusal only",
+        technique=TECH + "access-control reference model with full-state diff on refusal",
+    ),
+    "C20": dict(
+        level="exploration", ref="DESIGN.md 5/C20",
+        text="Bodies of 1-6 ';'-separated statements (with trailing ';', blanks and spaces) are sent as one HTTP request to the real http_ops worker loop or as one WebSocket frame; the reference executes the same commands one at a time with a fresh direct session on a mirrored database set: entry i must equal what command i alone produces, counts must match, both database sets must end equal, and the request's session must leave no connection or watcher behind.",
+        note="input/history dominated; tiny_http / ws wire layers are facades; the CLI clause is outside the simulator",
+        technique=TECH + "differential oracle (batched request vs one-command-at-a-time reference)",
+    ),
     "C13": dict(
         level="exploration", ref="DESIGN.md 5/C13",
         text="Seeded sequences of plain / versioned / stale writes interleaved with arbiter connect, disconnect and resolve (the arbiter is a harness session that echoes op id and version of the oldest notice) on an arbiter-strategy database, on one node and in 2-3 node clusters with arbiter and writer on the primary or a secondary; a conflict-queue model per key checks refusal vs queueing, the $conflicts_ records, once-per-registration delivery, the value after each resolution, writability and emptiness at the end and replica agreement.",
